@@ -331,7 +331,7 @@ func toGenericSlice(arg interface{}) interface{} {
 	v := reflect.ValueOf(arg)
 	converted := make([]interface{}, v.Len())
 	for i := range converted {
-		converted[i] = v.Index(i).Interface()
+		converted[i] = valueOrNil(v.Index(i))
 	}
 	return converted
 }
